@@ -158,6 +158,20 @@ def handleRange (st : St) (op : String) (j : Json) : Option (D (St × Json)) :=
             | .error _ => Json.null
           | _ => Json.null
         | _, _ => Json.null
+    let validRun : Json :=
+      if f == t && sl.size == 0 then Json.null
+      else match d.resolve f, d.resolve t with
+        | some rf, some rt =>
+          match fitsTriviallyR S rf rt sl with
+          | some false =>
+            match fitInit S rf sl with
+            | .ok st0 =>
+              match fitLoopAll S (FitState.validB S rf.depth) (fitFuel S sl) st0 with
+              | some b => Json.bool b
+              | none => Json.null
+            | .error _ => Json.null
+          | _ => Json.null
+        | _, _ => Json.null
     let cls : String :=
       if sl.content.isEmpty then "empty" else if sl.inlineLeaves S then "inline"
       else if sl.openStart == 0 && sl.openEnd == 0 then "closed" else "open"
@@ -166,6 +180,9 @@ def handleRange (st : St) (op : String) (j : Json) : Option (D (St × Json)) :=
         ("uStart", trace (fun st => decide (st.unplaced.openStart ≤ spineL st.unplaced.content))),
         ("uEnd", trace (fun st => decide (st.unplaced.openEnd ≤ spineR st.unplaced.content))),
         ("uWfRun", Json.bool (unplacedWfRun S d f t sl)), ("coherent", coherent), ("labels", Json.bool S.labelsOKB), ("leafOk", Json.bool (PM.FromDom.leafOkB S)), ("textStable", Json.bool (textStableC S)), ("slWf", Json.bool sl.wf),
+        ("closable", Json.bool S.closableB), ("slClosedValid", Json.bool (sl.closedValid S)),
+        ("slValid", Json.bool (openValidB S sl.openStart sl.openEnd sl.content)),
+        ("endInv", match fitEndInv S d f t sl with | some b => Json.bool b | none => Json.null), ("validRun", validRun),
         ("hyp", Json.bool (PM.FromDom.detB S && S.fillersOKB && S.wrapOKB && S.checkNode d && S.nodeAttrsOK d))])]))
   | "fillBeforeO" => some do
     let S ← getSchema st j
